@@ -216,96 +216,6 @@ def check_cover(ctx):
     ctx.count("R11-COVER abstract hand-over paths", total, 40)
 
 
-def containment_ok(pre, cont, child, outer_assigns=None):
-    """pre-statements compute `cont` := for every dim, box[dim][0] <= point[dim] <= box[dim][1]."""
-    names = {}
-    for s in list(outer_assigns or []) + list(pre):
-        if isinstance(s, ast.Assign) and isinstance(s.targets[0], ast.Name):
-            names[s.targets[0].id] = s
-    BOX = ("%s.get_domain()" % child, "%s.domain" % child)
-    PT = ("self.best_arm.get_point()", "self.best_arm.p")
-    box = [n for n, s in names.items() if norm_src(s.value) in BOX] or [b for b in BOX if any(b in norm_src(x) for x in pre)]
-    pt = [n for n, s in names.items() if norm_src(s.value) in PT] or [b for b in PT if any(b in norm_src(x) for x in pre)]
-    if len(box) != 1 or len(pt) != 1:
-        return False, "child box / arm point are not read as expected (%s, %s)" % (box, pt)
-    box, pt = box[0], pt[0]
-    init = names.get(cont)
-    if init is not None and isinstance(init.value, ast.Call) and norm_src(init.value.func) == "all" and len(init.value.args) == 1 and \
-            isinstance(init.value.args[0], (ast.GeneratorExp, ast.ListComp)) and len(init.value.args[0].generators) == 1:
-        ge = init.value.args[0]
-        gen = ge.generators[0]
-        if gen.ifs:
-            return False, "all(...) with a filter"
-        it, tg, elt = norm_src(gen.iter), gen.target, ge.elt
-        # forms: all(box[d][0] <= pt[d] <= box[d][1] for d in range(len(box)))  /  for p, (lo, hi) in zip(pt, box)  /  for (lo, hi), p in zip(box, pt)
-        conj = set()
-        parts = elt.values if isinstance(elt, ast.BoolOp) and isinstance(elt.op, ast.And) else [elt]
-        expanded = []
-        for part in parts:
-            if isinstance(part, ast.UnaryOp) and isinstance(part.op, ast.Not) and isinstance(part.operand, ast.BoolOp) and \
-                    isinstance(part.operand.op, ast.Or) and all(isinstance(v, ast.Compare) and len(v.ops) == 1 for v in part.operand.values):
-                for v in part.operand.values:      # not (a < b or c > d)  ==  a >= b and c <= d
-                    neg = {ast.Lt: ast.GtE, ast.Gt: ast.LtE, ast.LtE: ast.Gt, ast.GtE: ast.Lt}.get(type(v.ops[0]))
-                    if neg is None:
-                        return False, "unexpected comparison in the containment test"
-                    expanded.append(ast.Compare(left=v.left, ops=[neg()], comparators=v.comparators))
-            else:
-                expanded.append(part)
-        for part in expanded:
-            if isinstance(part, ast.Compare):
-                left = part.left
-                for op, c in zip(part.ops, part.comparators):
-                    o = {ast.LtE: "<=", ast.GtE: ">="}.get(type(op))
-                    if o is None:
-                        return False, "containment uses a strict or unexpected comparison (%s)" % norm_src(part)
-                    a, b = norm_src(left), norm_src(c)
-                    conj.add((a, b) if o == "<=" else (b, a))
-                    left = c
-            else:
-                return False, "containment element is not a comparison"
-        if it == "range(len(%s))" % box and isinstance(tg, ast.Name):
-            d = tg.id
-            want = {("%s[%s][0]" % (box, d), "%s[%s]" % (pt, d)), ("%s[%s]" % (pt, d), "%s[%s][1]" % (box, d))}
-        elif it in ("zip(%s, %s)" % (pt, box), "zip(%s, %s)" % (box, pt)) and isinstance(tg, ast.Tuple) and len(tg.elts) == 2:
-            a, b = tg.elts if it.startswith("zip(%s" % pt) else (tg.elts[1], tg.elts[0])
-            if isinstance(b, ast.Tuple) and len(b.elts) == 2:
-                lo, hi = norm_src(b.elts[0]), norm_src(b.elts[1])
-            else:
-                lo, hi = "%s[0]" % norm_src(b), "%s[1]" % norm_src(b)
-            want = {(lo, norm_src(a)), (norm_src(a), hi)}
-        else:
-            return False, "all(...) does not range over every dimension of the child's box (%s)" % it
-        if conj != want:
-            return False, "containment test is %s, expected %s" % (sorted(conj), sorted(want))
-        return True, "closed containment in every dimension (all(lo <= p <= hi))"
-    loops = [s for s in pre if isinstance(s, ast.For)]
-    if init is not None and norm_src(init.value) == "True" and len(loops) == 1:
-        Lp = loops[0]
-        if norm_src(Lp.iter) != "range(len(%s))" % box or not isinstance(Lp.target, ast.Name):
-            return False, "the coordinate loop does not run over all dimensions of the child's box (%s)" % norm_src(Lp.iter)
-        d = Lp.target.id
-        body = Lp.body
-        if len(body) != 1 or not isinstance(body[0], ast.If) or body[0].orelse:
-            return False, "coordinate loop body is not a single 'outside -> not contained' test"
-        t = body[0].test
-        outs = {norm_src(v) for v in (t.values if isinstance(t, ast.BoolOp) and isinstance(t.op, ast.Or) else [t])}
-        want = {"%s[%s] < %s[%s][0]" % (pt, d, box, d), "%s[%s] > %s[%s][1]" % (pt, d, box, d)}
-        alt = {"%s[%s][0] > %s[%s]" % (box, d, pt, d), "%s[%s][1] < %s[%s]" % (box, d, pt, d)}
-        if outs not in (want, alt):
-            return False, "outside-test is %s, expected %s" % (sorted(outs), sorted(want))
-        eff = [norm_src(s) for s in body[0].body if not isinstance(s, ast.Break)]
-        if eff != ["%s = False" % cont]:
-            return False, "an outside coordinate does not (only) clear the flag: %s" % eff
-        if Lp is not pre[-1] and any(isinstance(s, ast.Assign) and norm_src(s.targets[0]) == cont for s in pre[pre.index(Lp) + 1:]):
-            return False, "the containment flag is overwritten after the loop"
-        if pre.index(init) > pre.index(Lp):
-            return False, "flag initialised after the loop"
-        return True, "closed containment in every dimension (flag cleared as soon as one coordinate is outside)"
-    if init is not None and isinstance(init.value, ast.Call) and norm_src(init.value.func) == "all":
-        return False, "all(...) form not recognised in this version"
-    return False, "containment flag '%s' is not computed by the recognised per-dimension loop" % cont
-
-
 def check_make_active(ctx):
     model = ctx.model
     c = model.cls("Zooming")
